@@ -85,6 +85,8 @@ KINDS = {
     "anon_s": "struct {{ uint8 {n}a; uint16 {n}b; }};",
     "named_s": "struct {{ uint16 {n}a; uint8 {n}b; }} {n};",
     "anon_bits": "struct {{ uint16 {n}a:4; uint16 {n}b:5; }};",
+    "anon_s32": "struct {{ uint32 {n}w; }};",
+    "anon_s3": "struct {{ uint8 {n}a; uint8 {n}b; uint8 {n}c; }};",
     "anon_u": "union {{ uint16 {n}a; uint8 {n}b[2]; }};",
     "named_u": "union {{ uint32 {n}a; uint8 {n}b; }} {n};",
     "b16_full": "uint16 {n}a:3; uint16 {n}b:13;",
